@@ -68,7 +68,7 @@ VARIABLES cs,             \* the current case
 TS == 256
 ST == INSTANCE StudyTiling WITH TS <- 256, MaxW <- 1, MaxH <- 1, MaxLen <- 1, SubMode <- "none", SubLens <- {}, c <- 0
 PAR == INSTANCE Parity WITH Kinds <- {}, Widths <- {}, Heights <- {}, Headers <- {}, RefX <- {}, RefY <- {}, RecY <- {},
-                            Peers <- {}, MaxHist <- 0, orig <- 0, cur <- 0, peer <- 0, buf <- 0, hist <- 0, trace <- 0
+                            Peers <- {}, Edits <- {}, MaxHist <- 0, orig <- 0, cur <- 0, base <- 0, peer <- 0, buf <- 0, hist <- 0, trace <- 0
 
 \* ================================================================================================ numbers
 Abs(i) == IF i < 0 THEN 0 - i ELSE i
